@@ -564,13 +564,13 @@ func (x *c03ctx) k1siteRefute(p *ssa.Panic, s ssa.CallInstruction, args []*c03te
 		}
 		if good && len(need) > 0 {
 			sort.Strings(need)
-			return "for the arguments of this call the panic needs " + c03descOf(cl.atoms) + "; the caller establishes " + joinAnd(need) + ": " + joinAnd(c03uniq(hows)), true
+			return "for the arguments of this call the panic needs " + c03descOf(cl.atoms) + "; the caller establishes " + f1joinAnd(need) + ": " + f1joinAnd(c03uniq(hows)), true
 		}
 	}
 	return "", false
 }
 
-func joinAnd(s []string) string {
+func f1joinAnd(s []string) string {
 	out := ""
 	for i, x := range s {
 		if i > 0 {
